@@ -48,7 +48,13 @@ def run(tier):
             records.append({"tid": rid, "opts": o, "lines": lines, "badbreaks": bad})
             meta[rid] = (text, o, out)
             ck.nontrivial(rid + str(o))
-    verdicts = tracecheck.validate("TraceLayout", records, "c16", ck=ck, chunk=600)
+    def canary(r):
+        for ln in r["lines"]:
+            if ln["kind"] == "attr":
+                ln["wslen"] += 1
+                return r
+        return None
+    verdicts = tracecheck.validate("TraceLayout", records, "c16", ck=ck, chunk=600, canary=canary)
     for rid, v in verdicts.items():
         if v["verdict"] != "ok":
             text, o, out = meta[rid]
